@@ -1,3 +1,3 @@
 From Coq Require Import ExtrOcamlBasic.
 From CppUVerif Require Import lib.CInt C08_Model.
-Extraction "c08_model.ml" C08_Model.runw C08_Model.runw_old C08_Model.specw C08_Model.valid C08_Model.run C08_Model.spec C08_Model.parsew C08_Model.judgedw C08_Model.verdictw_ok C08_Model.post_to_check.
+Extraction "c08_model.ml" C08_Model.runw C08_Model.runw_old C08_Model.specw C08_Model.valid C08_Model.run C08_Model.spec C08_Model.parsew C08_Model.judgedw C08_Model.verdictw_ok C08_Model.post_to_check C08_Model.runs C08_Model.runs_gen C08_Model.spec_run C08_Model.valid_run C08_Model.ops_before C08_Model.own_fails C08_Model.plugin_runwide C08_Model.plugin_always C08_Model.plugin_noclear.
